@@ -253,8 +253,21 @@ func (fr *Frame) applyContract(v ssa.Value, ct *Contract, name string, c *ssa.Ca
 				continue
 			}
 			if hasRecv {
-				// CALLEE@local: only call sites whose receiver / first argument is the local of that name
-				if len(c.Args) == 0 || !fr.valueNamed(c.Args[0], recvName) {
+				// CALLEE@local: only call sites whose receiver / first argument is the local of that name;
+				// CALLEE@param=local: only call sites where the argument for that parameter is that local
+				idx := 0
+				if pn, ln, ok := strings.Cut(recvName, "="); ok {
+					idx = -1
+					if fn := c.StaticCallee(); fn != nil {
+						for k, p := range fn.Params {
+							if p.Name() == pn {
+								idx = k
+							}
+						}
+					}
+					recvName = ln
+				}
+				if idx < 0 || idx >= len(c.Args) || !fr.valueNamed(c.Args[idx], recvName) {
 					continue
 				}
 			}
@@ -266,8 +279,10 @@ func (fr *Frame) applyContract(v ssa.Value, ct *Contract, name string, c *ssa.Ca
 				if _, clash := e2.vars[k]; !clash {
 					e2.vars[k] = val
 				}
+				e2.vars["arg_"+k] = val // the callee's parameter, also when the caller has a variable of the same name
 			}
 			e2.resolve = func(nm string) (*Term, bool) { return fr.resolveAt(nm, in, st) }
+			e2.resolveAddr = fr.allocRef
 			t, err := e2.Parse(ac.Expr)
 			if err != nil {
 				panic(&exprError{err.Error()})
